@@ -601,7 +601,24 @@ def rule_order(ctx, px, ts):
                 out_.append(pyfront.subst_locals(fn.node, v_))
         return out_
     inc_rets = _sorted_exprs(g_inc)
-    sorted_all = bool(inc_rets) and all(isinstance(v_, ast.Call) and effects.dotted(v_.func) == "sorted" and v_.args and "get_includes(" in ast.unparse(v_.args[0]) for v_ in inc_rets)
+    def _feeds(name_):
+        """the language's includes are put into the local `name_` (assignment, +=, extend / append)"""
+        for n_ in ast.walk(g_inc.node):
+            if isinstance(n_, (ast.Assign, ast.AugAssign, ast.AnnAssign)):
+                tg_ = n_.targets[0] if isinstance(n_, ast.Assign) else n_.target
+                if isinstance(tg_, ast.Name) and tg_.id == name_ and n_.value is not None and "get_includes(" in ast.unparse(n_.value):
+                    return True
+            if isinstance(n_, ast.Call) and isinstance(n_.func, ast.Attribute) and n_.func.attr in ("extend", "append", "update") and isinstance(n_.func.value, ast.Name) \
+                    and n_.func.value.id == name_ and any("get_includes(" in ast.unparse(a_) for a_ in n_.args):
+                return True
+        return False
+
+    def _sorts_all(v_):
+        if not (isinstance(v_, ast.Call) and effects.dotted(v_.func) == "sorted" and v_.args):
+            return False
+        a0 = v_.args[0]
+        return "get_includes(" in ast.unparse(a0) or (isinstance(a0, ast.Name) and _feeds(a0.id))
+    sorted_all = bool(inc_rets) and all(_sorts_all(v_) for v_ in inc_rets)
     lang_unordered = []      # hash-ordered iterations inside a language's get_includes that reach its result unsorted
     n = 0
     for f in px.all_funcs:
